@@ -127,7 +127,11 @@ class DocGen:
         if r.random() < 0.3 and len(cands) >= 2:
             n2, t2 = r.choice([c_ for c_ in cands if c_[0] != name] or cands)
             if t.kind != "enumerated" and t2.kind != "enumerated":
-                return ir.Condition(name, c.op, right_param=n2, left_cal=False, right_cal=False)
+                def exact(tt):   # derived value exactly representable: uncalibrated, or integer-coefficient linear polynomial
+                    return tt.kind == "integer" and not tt.enc.context_cals and (tt.enc.default_cal is None or integral_poly(tt.enc.default_cal))
+                lc = r.random() < 0.5 if exact(t) else False
+                rc = r.random() < 0.5 if exact(t2) else False
+                return ir.Condition(name, c.op, right_param=n2, left_cal=lc, right_cal=rc)
         return ir.Condition(name, c.op, right_value=c.value, left_cal=c.calibrated, right_cal=False)
 
     def criteria(self, cx: Ctxt, allow_none=True):
